@@ -38,7 +38,7 @@ impl Prop for P {
         }
     }
     fn cases(tier: Tier) -> u64 {
-        tier.pick(200_000, 2_000_000)
+        tier.pick(800_000, 8_000_000)
     }
     fn strategy(_tier: Tier) -> BoxedStrategy<Case> {
         let input = prop_oneof![3 => valid_src(false).prop_map(|src| AnyInput { src, muts: vec![] }), 1 => any_input()];
